@@ -124,7 +124,7 @@ OuterLoop:
 						return "", err
 					}
 					tmpMem += t.RequireBytes(len(s))
-					arg = string(s)
+					arg = cString(s)
 					break ArgLoop
 				case 'q':
 					// quote, only for literals I think
@@ -320,5 +320,29 @@ func (n cInt) Format(f fmt.State, verb rune) {
 		io.WriteString(f, sign+prefix+strings.Repeat("0", pad)+digits)
 	default:
 		io.WriteString(f, strings.Repeat(" ", pad)+sign+prefix+digits)
+	}
+}
+
+// cString is the argument of %s.  Lua strings are byte strings and C's printf
+// counts width and precision in bytes, whereas fmt counts runes ("%5s" of "é"
+// padded with 4 spaces instead of 3, "%.1s" kept both bytes), so the padding
+// and truncation are done here.
+type cString string
+
+// Format implements fmt.Formatter.
+func (s cString) Format(f fmt.State, verb rune) {
+	str := string(s)
+	if prec, ok := f.Precision(); ok && prec < len(str) {
+		str = str[:prec]
+	}
+	width, _ := f.Width()
+	pad := width - len(str)
+	if pad < 0 {
+		pad = 0
+	}
+	if f.Flag('-') {
+		io.WriteString(f, str+strings.Repeat(" ", pad))
+	} else {
+		io.WriteString(f, strings.Repeat(" ", pad)+str)
 	}
 }
